@@ -93,7 +93,7 @@ UNITS = [
 VERIFIED_CALLEES = ()
 LEVEL = "other"
 TECHNIQUE = "contract-based deductive verification of the naming clause of the inner-parser style (VCs from the real AST, strings by cvc5/z3) + bounded relational contract across the four declaration styles"
-LEVEL_TEXT = "under construction"
+LEVEL_TEXT = "Proved for the inner-parser style: moved actions get dest prefix.replace('-','_') + '.' + dest and option '--' + prefix + '.' + rest for every prefix string, the required key equals the new dest (this refuted the shipped code for prefixes with a dash; fixed), conflicts are refused, the whole-group option is added. The property itself is relational over four construction paths: bounded only (47 types x 4 group keys x value pools x channels, agreement of decision / values / dump)."
 LEVEL_NOTE = "under construction"
 EXPLANATION = "under construction"
 ASSUMPTIONS = []
